@@ -693,7 +693,9 @@ func (g *FnGen) checkInvariants(li *loopInfo, phiVals map[*ssa.Phi]Val, what str
 				name = fmt.Sprintf("%s@edge%d", name, n)
 			}
 		}
-		g.oblige("inv/"+what, name, env.trBool(c.E), c.Src, li.header.Instrs[0].Pos())
+		for _, part := range env.topParts(c.E) {
+			g.oblige("inv/"+what, name+part.Suffix, part.T, c.Src, li.header.Instrs[0].Pos())
+		}
 	}
 	for k, t := range g.implicitRangeInv(li, phiVals) {
 		name := fmt.Sprintf("loop%d/rangeinv#%d/%s", li.ord, k, what)
@@ -978,12 +980,25 @@ func (g *FnGen) ret(i *ssa.Return) {
 	idx := g.retIdx
 	g.retIdx++
 	g.addCover("ret", fmt.Sprintf("ret%d", idx))
+	// hints: intermediate assertions, each proved here (with the earlier ones assumed) and then assumed for the postconditions
+	for k, c := range g.fc.Hints {
+		name := fmt.Sprintf("hint#%d@ret%d", k, idx)
+		if c.Label != "" {
+			name = fmt.Sprintf("hint:%s@ret%d", c.Label, idx)
+		}
+		for _, part := range env.topParts(c.E) {
+			g.oblige("hint", name+part.Suffix, part.T, c.Src, i.Pos())
+			g.assumeHere(part.T)
+		}
+	}
 	for k, c := range g.fc.Ensures {
 		name := fmt.Sprintf("post#%d@ret%d", k, idx)
 		if c.Label != "" {
 			name = fmt.Sprintf("post:%s@ret%d", c.Label, idx)
 		}
-		g.oblige("post", name, env.trBool(c.E), c.Src, i.Pos())
+		for _, part := range env.topParts(c.E) {
+			g.oblige("post", name+part.Suffix, part.T, c.Src, i.Pos())
+		}
 	}
 }
 
